@@ -36,6 +36,10 @@ impl Parser {
             ident.mark_const();
         }
 
+        if is_modify {
+            ident.mark_modify_alias();
+        }
+
         let value = Self::value(rhs)?;
 
         let user_data = input.user_data();
